@@ -23,6 +23,14 @@ def run(ctx, seed_offset=0, ncases=None):
     res = C.Result()
     scs, reps, mons = G.run_family(ctx, res, seed_offset=seed_offset, ncases=ncases)
     classify(res, scs, reps, mons)
+    if not seed_offset:
+        binary = C.build_harness()
+        r, _ = C.run_harness(binary, ['gochan-d9', '-seed', str(ctx['seed'])], ctx['pid'], 'dup.json', timeout=180)
+        for d in r.get('dup') or []:
+            res.evaluations += 1; res.count('empty / non-unique UUID scenario')
+            # "delivered, with identical UUID, payload and metadata": also for messages with an empty or a repeated UUID
+            if sorted(d['early']) != sorted(d['published']):
+                res.violations.append(dict(signature='C04/non-unique-or-empty-uuid-delivery-differs', what='published (uuid|payload) %s but the subscription that existed received %s' % (d['published'], d['early']), case=d))
     G.samples(res, scs, mons)
     res.rule = G.RULE
     return res
